@@ -1068,7 +1068,8 @@ impl Server {
                             transactions::handle_unwatch(conn, &self.storage)
                         }).unwrap_or_else(|| Ok(RespFrame::error("ERR connection not found")));
                     }
-                    "PUBLISH" => return self.handle_publish(parts),
+                    // (inside MULTI a PUBLISH is queued like any other command and delivered by EXEC)
+                    "PUBLISH" if !in_transaction => return self.handle_publish(parts),
                     "SUBSCRIBE" => return self.handle_subscribe(parts, conn_id),
                     "UNSUBSCRIBE" => return self.handle_unsubscribe(parts, conn_id),
                     "PSUBSCRIBE" => return self.handle_psubscribe(parts, conn_id),
@@ -1215,6 +1216,11 @@ impl Server {
                 if let Some(selected) = self.connections.with_connection(conn_id, |conn| conn.db_index) {
                     db_index = selected;
                 }
+                continue;
+            }
+            let is_publish = matches!(cmd_parts.first(), Some(RespFrame::BulkString(Some(name))) if name.eq_ignore_ascii_case(b"PUBLISH"));
+            if is_publish {
+                results.push(self.handle_publish(cmd_parts)?);
                 continue;
             }
             match self.process_command_parts(&cmd_parts, db_index) {
